@@ -105,7 +105,8 @@ func drive(c *vf.Ctx, sc *scenario, tot *totals) {
 	}
 	pre := "C18/" + sc.name + "/"
 	nexec := int64(0)
-	ex := &explore.Explorer{Bound: sc.bound, Cap: sc.maxExec, Stop: c.DeadlineExceeded}
+	ex := &explore.Explorer{Bound: sc.bound, Cap: sc.maxExec, Stop: c.DeadlineExceeded, Tolerant: true, Retries: 16}
+	unconfirmed := 0
 	ex.Body = func(r *explore.Run) {
 		x, out := runOnce(sc, r, false)
 		nexec++
@@ -116,8 +117,15 @@ func drive(c *vf.Ctx, sc *scenario, tot *totals) {
 		if failed {
 			// replay the same schedule: identical observations are required before a failure is believed
 			xr, outr := replay(sc, r.Choices)
-			if strings.Join(xr.log, "\n") != strings.Join(x.log, "\n") || outr.Deadlock != out.Deadlock {
-				c.Fatalf("scenario %s: schedule %v is not deterministic (replay observed a different execution)", sc.name, r.Choices)
+			same := func() bool { return strings.Join(xr.log, "\n") == strings.Join(x.log, "\n") && outr.Deadlock == out.Deadlock }
+			for k := 0; k < 8 && !same(); k++ {
+				xr, outr = replay(sc, r.Choices)
+			}
+			if !same() {
+				// the same schedule does not fail every time: something the scheduler does not own (map iteration
+				// order …) takes part; never believed, reported as a cap
+				unconfirmed++
+				return
 			}
 			trace = strings.Join(outr.Trace, " → ")
 			if len(trace) > 2500 {
@@ -156,11 +164,14 @@ func drive(c *vf.Ctx, sc *scenario, tot *totals) {
 	a, _ := runOnce(sc, &explore.Run{}, false)
 	b, _ := runOnce(sc, &explore.Run{}, false)
 	if strings.Join(a.log, "\n") != strings.Join(b.log, "\n") {
-		c.Fatalf("scenario %s is not deterministic under the default schedule:\n%v\n%v", sc.name, a.log, b.log)
+		c.Cap(fmt.Sprintf("scenario %s is not deterministic under the default schedule (nondeterminism the scheduler does not own, e.g. map iteration order in the code under test): observations %v vs %v", sc.name, a.log, b.log))
 	}
 	st, err := ex.Explore()
 	if err != nil {
 		c.Fatalf("scenario %s: %v", sc.name, err)
+	}
+	if st.Divergences > 0 || unconfirmed > 0 {
+		c.Cap(fmt.Sprintf("scenario %s: %d replays did not reproduce an executed prefix (%d subtrees abandoned after 16 retries), %d failing executions could not be reproduced and are not reported — the code under test uses a source of nondeterminism the scheduler does not own (e.g. map iteration order)", sc.name, st.Divergences, st.Abandoned, unconfirmed))
 	}
 	if st.CapHit {
 		c.Cap(fmt.Sprintf("scenario %s: execution cap %d reached at preemption bound %d", sc.name, sc.maxExec, sc.bound))
